@@ -430,7 +430,13 @@ def minimize_lbfgsb(
                 ),
             )
         else:
-            return checkpoint
+            # same state as the checkpoint, but the termination report must be the
+            # one of this run (the checkpoint carries the reason of the previous one)
+            res = copy.copy(checkpoint)
+            res.message = istate.task_str
+            res.status = istate.warnflag
+            res.success = istate.is_success
+            return res
 
     # Compute the first gradient if no checkpoint provided
     if checkpoint is None:
